@@ -101,6 +101,11 @@ class Spec:
             for L in ("1", "W", "W+1"):
                 for p in self.pads:
                     acts.append("send:%d:%s:%s" % (sid, L, "n" if p is None else p))
+            # the same with END_STREAM: exactly the window, one byte more (refused: the stream must stay as it was), and no
+            # payload at all but padding
+            for L in ("W", "W+1"):
+                acts.append("send:%d:%s:n:es" % (sid, L))
+            acts.append("send:%d:1:%s:es" % (sid, self.pads[-1]))
             acts.append("sendF1:%d" % sid)
             acts.append("end:%d" % sid)
             for inc in ("1", "max", "over"):
@@ -197,7 +202,10 @@ class Spec:
             if n > 2 ** 24:      # do not allocate absurd payloads: the verdict for such L is still decided
                 n = 2 ** 24
                 L = n + over
-            o = h.api("send_data", sid, b"d" * n, pad_length=pad)
+            es = len(parts) > 4 and parts[4] == "es"
+            if es and pad is not None and parts[2] == "1":
+                n, L = 0, over        # nothing but padding (and the END_STREAM flag)
+            o = h.api("send_data", sid, b"d" * n, pad_length=pad, **({"end_stream": True} if es else {}))
             fits = L <= W
             within = L <= st.F
             if fits and within:
@@ -215,6 +223,10 @@ class Spec:
                             padded=pad is not None)
                     st.Wc -= L
                     st.Ws[sid] -= L
+                    if es:
+                        if not dfs or not dfs[0].f["es"]:
+                            bad("wrong-data-frame", "send_data(sid=%d, end_stream=True) emitted %s" % (sid, o.brief()), padded=pad is not None)
+                        st.done.add(sid)
                 out = "send-ok"
             else:
                 want = ("FlowControlError",) if not fits and within else (
